@@ -92,6 +92,7 @@ type mIt struct {
 // mIb mirrors mkIb(s, n, fl): GetIterator calls its [Symbol.iterator]() method, a probe (site+3).
 type mIb struct {
 	site, n, flags int
+	drv            *EDrive // driver operation performed by [Symbol.iterator]() when its decision is 3
 }
 
 const (
@@ -219,6 +220,14 @@ func (m *ctlModel) getIterator(v mValue) (*mIterRec, completion) {
 			return nil, throwC(1000 + v.site + 3)
 		case 2:
 			return nil, mTypeErr() // the method returned a non-object
+		case 3:
+			if v.drv != nil {
+				// the method drives a generator (possibly the one whose yield* is asking for this iterator: it is
+				// running, so that is a TypeError thrown out of the method)
+				if _, c := m.eval(nil, v.drv); c.t != cNormal {
+					return nil, c
+				}
+			}
 		}
 		return &mIterRec{obj: &mIt{site: v.site, n: v.n, flags: v.flags}}, normalC
 	}
